@@ -80,7 +80,10 @@ fn mkid(a: &str, l: &str, seq: u32, v: &str) -> Value {
 pub struct Info {
     pub key: String,
     pub a: String,
+    /// the log the operation is delivered under (log id argument / arrival topic)
     pub l: String,
+    /// the log its signed header names
+    pub ol: String,
     pub seq: u32,
     pub prune: bool,
     pub bl: Option<String>,
@@ -175,6 +178,7 @@ impl World {
                 key: format!("{a}|{l}|{s}|Honest"),
                 a: a.to_string(),
                 l: l.to_string(),
+                ol: l.to_string(),
                 seq: s,
                 prune,
                 bl: if s == 0 { None } else { Some(format!("{a}|{l}|{}|Honest", s - 1)) },
@@ -192,7 +196,7 @@ impl World {
         let mut body = base.body.clone();
         let author = self.name_of(&h.verifying_key);
         match cls {
-            "Honest" => {}
+            "Honest" | "CrossLog" => {}
             "BadSig" => {
                 let mut sig = h.signature.expect("signed").to_bytes();
                 let bit = (tweak % 512) as usize;
@@ -498,11 +502,13 @@ impl Judge {
             if !justified {
                 let sig = if res == Res::Rejected { "prune-after-failed-ingest" } else { "prune-without-valid-prune-operation" };
                 f.push(("C04", sig.into(), format!("{} (valid: {}, prune flag: {}, ingest: {}) deleted {:?}", info.key, info.wf, info.prune, res.name(), deleted.iter().map(|r| r.key.clone()).collect::<Vec<_>>())));
+            } else if info.l != info.ol {
+                f.push(("C04", "cross-log-prune".into(), format!("{} is an operation of log {}/{} that arrived on the topic of log {}: it deleted {:?} of {}/{}", info.key, info.a, info.ol, info.l, deleted.iter().map(|r| r.key.clone()).collect::<Vec<_>>(), info.a, info.l)));
             } else if deleted.iter().any(|r| r.a != info.a || r.l != info.l || r.seq >= info.seq) {
                 f.push(("C04", "prune-outside-own-log-prefix".into(), format!("{} (prune point {}/{}/{}) deleted {:?}", info.key, info.a, info.l, info.seq, deleted.iter().map(|r| r.key.clone()).collect::<Vec<_>>())));
             }
         }
-        if justified {
+        if justified && info.l == info.ol {
             if let Some(r) = after.iter().find(|r| r.a == info.a && r.l == info.l && r.seq < info.seq) {
                 f.push(("C04", "prune-incomplete".into(), format!("after the prune point {}/{}/{} was processed {} (seq {}) is still stored", info.a, info.l, info.seq, r.key, r.seq)));
             }
@@ -636,6 +642,7 @@ async fn replay_one(imp: &Impl, b: &Value, bi: usize, out: &mut Outcome, expand:
                     key: idkey(&item["id"]),
                     a: item["a"].as_str().unwrap().to_string(),
                     l: item["l"].as_str().unwrap().to_string(),
+        ol: item["ol"].as_str().unwrap().to_string(),
                     seq: item["seq"].as_u64().unwrap() as u32,
                     prune: item["prune"].as_bool().unwrap(),
                     bl: if item["bl"]["seq"].as_i64() == Some(-1) { None } else { Some(idkey(&item["bl"])) },
@@ -893,14 +900,16 @@ async fn expansion(imp: &Impl, world: &mut World, p: &Pending, cur: &BTreeSet<Ro
         };
         out.count("expansion_mutations");
         let log = m.header.extensions.log.clone();
+        // (a mutant that only differs in the body has the hash of the original, which may be stored)
+        let had = imp.has(&m.hash).await?;
         let res = imp.ingest(&m, &log).await?;
         let rows_after = imp.total_rows().await?;
         let has = imp.has(&m.hash).await?;
-        if res != Res::Rejected || rows_after != rows_before || has {
+        if res != Res::Rejected || rows_after != rows_before || has != had {
             out.violation(
                 "C01",
                 "tampered-operation-accepted",
-                format!("step {si}: mutation `{name}` of the valid operation {} : ingest returned {}, rows {} -> {}, has_operation(mutant) = {}", p.info.key, res.name(), rows_before, rows_after, has),
+                format!("step {si}: mutation `{name}` of the valid operation {} : ingest returned {}, rows {} -> {}, has_operation(mutant) {} -> {}", p.info.key, res.name(), rows_before, rows_after, had, has),
                 json!({"behaviour": b, "step": si, "mutation": name}),
             );
             return Ok(());
@@ -928,7 +937,7 @@ fn info_json(i: &Info) -> Value {
     };
     json!({
         "id": {"a": id[0], "l": id[1], "seq": id[2].parse::<i64>().unwrap_or(-1), "v": id[3]},
-        "a": i.a, "l": i.l, "seq": i.seq, "prune": i.prune, "bl": bl, "wf": i.wf,
+        "a": i.a, "l": i.l, "ol": i.ol, "seq": i.seq, "prune": i.prune, "bl": bl, "wf": i.wf,
     })
 }
 
